@@ -51,6 +51,8 @@ type checker struct {
 	states                            *vk.Set
 	// hand-assembled scripts: what the handlers did (model), over all executions
 	hProgs, hCatches, hFinallies, hFinalliesPending, hSwallowed, hHaltUndone, hHalt, hFault vk.Counter
+	twins      vk.Counter // block-mode programs compared with their bare-THROW twin
+	twinStates *vk.Set    // distinct state roots reached by them
 }
 
 const perClassCap = 3
@@ -100,7 +102,25 @@ func (c *checker) evalTest(rg *rig, prog string) (m *Result, what, detail []stri
 		return nil, nil, nil, err
 	}
 	what, detail = compare(m, rr)
+	what, detail = triage(c.s0, ops, com, rr, what, detail)
 	return
+}
+
+const classPending = "pending-exception-drops-completed-call"
+
+// triage gives a difference its own class when it is explained completely by
+// one known mechanism: a call that completes while an exception is pending (made
+// in a FINALLY part entered by an exception) is unloaded like a failed one. The
+// difference stays a violation; only its key changes.
+func triage(init *State, ops []Op, com bool, rr *real, what, detail []string) ([]string, []string) {
+	if len(what) == 0 || !isHand(ops) {
+		return what, detail
+	}
+	if w2, _ := compare(runModelVM(init, ops, com), rr); len(w2) == 0 {
+		what = append([]string{classPending}, what...)
+		detail = append([]string{classPending + ": the execution equals the model variant in which a call that RETURNS while an exception is pending loses its changes"}, detail...)
+	}
+	return what, detail
 }
 
 // model runs the reference interpreter and, for hand-assembled scripts, counts what the handlers did.
@@ -135,6 +155,13 @@ func (c *checker) evalBlocks(progs []string, each func(i int, m *Result)) (idx i
 		return -1, nil, nil, err
 	}
 	defer rg.close()
+	// the twin replica follows in lockstep: it gets the same transactions, except that
+	// callees which fail and are caught are replaced by bare THROWs (twin_test.go)
+	tw, err := c.w.newRig()
+	if err != nil {
+		return -1, nil, nil, err
+	}
+	defer tw.close()
 	for i, p := range progs {
 		ops, err := parseProg(p)
 		if err != nil {
@@ -158,7 +185,31 @@ func (c *checker) evalBlocks(progs []string, each func(i int, m *Result)) (idx i
 			each(i, m)
 		}
 		if what, detail = compare(m, rr); len(what) > 0 {
+			what, detail = triage(init, ops, com, rr, what, detail)
 			return i, what, detail, nil
+		}
+		twinOps := ops
+		if m.Halt && len(m.Thrown) > 0 {
+			twinOps = stripThrown(ops, m.Thrown)
+			c.twins.Inc()
+		}
+		if e := chainxTry(func() { err = tw.runTwinBlock(c.w.script(twinOps), rr.tx, com) }); e != nil {
+			return i, []string{"twin-panic"}, []string{"panic: " + e.Error()}, nil
+		}
+		if err != nil {
+			return -1, nil, nil, err
+		}
+		c.blocks.Inc()
+		if a, b := rg.stateRoot(), tw.stateRoot(); a != b {
+			d := storageDiff(rg, tw, c.w.cw.MaxID+3)
+			if m.Halt && len(m.Thrown) > 0 {
+				c.twinStates.Add(a)
+				return i, []string{"twin-state-root"}, append([]string{fmt.Sprintf("twin-state-root: the program and its twin %s (failed callees replaced by bare THROWs) leave different ledger states", render(twinOps))}, d...), nil
+			}
+			return -1, nil, nil, fmt.Errorf("the twin replica diverged on an identical transaction (%s): %v", p, d)
+		}
+		if m.Halt && len(m.Thrown) > 0 {
+			c.twinStates.Add(rg.stateRoot())
 		}
 	}
 	return -1, nil, nil, nil
@@ -207,7 +258,7 @@ func (c *checker) reportTest(rg *rig, prog string, what, detail []string) {
 	if len(w2) == 0 {
 		min, w2, d2 = prog, what, detail
 	}
-	c.r.Violation(fmt.Sprintf("A-test:%s:%s", w2[0], min), caseRec{Layer: "A", Mode: "test", Prog: min, Orig: prog, What: w2, Detail: d2})
+	c.r.Violation(vkey("A-test", w2[0], min), caseRec{Layer: "A", Mode: "test", Prog: min, Orig: prog, What: w2, Detail: d2})
 }
 
 func (c *checker) reportBlock(progs []string, idx int, what, detail []string) {
@@ -228,7 +279,15 @@ func (c *checker) reportBlock(progs []string, idx int, what, detail []string) {
 			rec.Prog, rec.History, rec.What, rec.Detail = min, nil, w2, d2
 		}
 	}
-	c.r.Violation(fmt.Sprintf("A-block:%s:%s", rec.What[0], rec.Prog), rec)
+	c.r.Violation(vkey("A-block", rec.What[0], rec.Prog), rec)
+}
+
+// vkey: a triaged class comes first so that one known-finding pattern covers both modes.
+func vkey(mode, what, prog string) string {
+	if what == classPending {
+		return fmt.Sprintf("%s:%s:%s", what, mode, prog)
+	}
+	return fmt.Sprintf("%s:%s:%s", mode, what, prog)
 }
 
 const blockChunk = 24
@@ -244,7 +303,7 @@ func TestCheck(t *testing.T) {
 		fmt.Println("CHECK-ERROR: cannot build the prepared chain:", err)
 		os.Exit(3)
 	}
-	c := &checker{r: r, w: w, rigs: make(chan *rig, 64), class: map[string]int{}, states: vk.NewSet()}
+	c := &checker{r: r, w: w, rigs: make(chan *rig, 64), class: map[string]int{}, states: vk.NewSet(), twinStates: vk.NewSet()}
 	defer c.drain()
 	rg0, err := c.getRig()
 	if err == nil {
@@ -363,6 +422,23 @@ func TestCheck(t *testing.T) {
 	nbc := (len(blk) + blockChunk - 1) / blockChunk
 	r.Parallel(nbc, func(ci int) {
 		ps := blk[ci*blockChunk : min(len(blk), (ci+1)*blockChunk)]
+		for len(ps) > 0 && !r.TooMany() {
+			n := c.blockChunk(ps, &bUndone, &bFault, &bHalt)
+			if n < 0 {
+				break
+			}
+			ps = ps[n+1:] // the programs after a differing one run on a fresh replica
+		}
+	})
+	fmt.Printf("layer A real blocks: %d programs, %.1fs\n", bUndone.Get()+bFault.Get()+bHalt.Get(), r.Elapsed())
+	c.finish(r, all, blk, spaceInfo, hInfo, bstat, ccov, cexecs, map[string]*vk.Counter{"A:test:HALT:callee-changes-undone": &undone, "A:test:HALT:callee-failed-nothing-to-undo": &restoredNoop,
+		"A:test:HALT:no-failure": &plain, "A:test:FAULT": &faulted, "A:block:HALT:callee-changes-undone": &bUndone, "A:block:FAULT": &bFault, "A:block:HALT:other": &bHalt})
+}
+
+// blockChunk runs ps one per block on a fresh replica pair; it returns the index of the
+// first program that differs (reported), or -1.
+func (c *checker) blockChunk(ps []string, bUndone, bFault, bHalt *vk.Counter) int {
+	{
 		idx, what, detail, err := c.evalBlocks(ps, func(i int, m *Result) {
 			c.execs.Inc()
 			c.calls.Add(m.Calls + 1)
@@ -378,15 +454,19 @@ func TestCheck(t *testing.T) {
 		})
 		if err != nil {
 			c.harness(err)
-			return
+			return -1
 		}
 		if idx >= 0 {
 			c.reportBlock(ps, idx, what, detail)
 		}
-	})
-	fmt.Printf("layer A real blocks: %d programs, %.1fs\n", bUndone.Get()+bFault.Get()+bHalt.Get(), r.Elapsed())
-	for k, v := range map[string]*vk.Counter{"A:test:HALT:callee-changes-undone": &undone, "A:test:HALT:callee-failed-nothing-to-undo": &restoredNoop,
-		"A:test:HALT:no-failure": &plain, "A:test:FAULT": &faulted, "A:block:HALT:callee-changes-undone": &bUndone, "A:block:FAULT": &bFault, "A:block:HALT:other": &bHalt} {
+		return idx
+	}
+}
+
+func (c *checker) finish(r *vk.Run, all, blk []string, spaceInfo, hInfo []map[string]any, bstat atomicStat, ccov map[string]any, cexecs int, outcomes map[string]*vk.Counter) {
+	undone, restoredNoop, plain, faulted := outcomes["A:test:HALT:callee-changes-undone"], outcomes["A:test:HALT:callee-failed-nothing-to-undo"], outcomes["A:test:HALT:no-failure"], outcomes["A:test:FAULT"]
+	bUndone, bFault, bHalt := outcomes["A:block:HALT:callee-changes-undone"], outcomes["A:block:FAULT"], outcomes["A:block:HALT:other"]
+	for k, v := range outcomes {
 		if v.Get() > 0 {
 			r.Outcome(k)
 		}
@@ -409,6 +489,8 @@ func TestCheck(t *testing.T) {
 		"layerA_test_outcomes": map[string]int64{"halt_callee_changes_undone": undone.Get(), "halt_callee_failed_nothing_to_undo": restoredNoop.Get(),
 			"halt_no_failure": plain.Get(), "fault": faulted.Get()},
 		"layerA_block_outcomes":           map[string]int64{"halt_callee_changes_undone": bUndone.Get(), "fault": bFault.Get(), "halt_other": bHalt.Get()},
+		"layerA_block_twin_differential": map[string]any{"programs_with_caught_failures_compared_with_bare_throw_twin": c.twins.Get(), "distinct_state_roots": c.twinStates.Len(),
+			"compared": "state root (storage of all contracts and natives) after the block; identical signers, fees, nonce"},
 		"layerB":                          bstat.cov,
 		"layerC_native_setter_then_fault": ccov,
 		"rule": "states = distinct final model states; transitions = contract calls (entry, RUN, native, payment callback) executed by the model; " +
